@@ -1161,10 +1161,10 @@ def gir_cache_equivalence(ctx, ex, cnt):
 # the repaired findings, on real file systems, through the real call site
 # ------------------------------------------------------------------------------------------
 def regression_replays(ctx, cnt, tags=None):
-    """harness/c18_replays.py in a process of its own (it hooks shutil / tempfile / GIRParser): F0-F5 must pass
-    without any suppression; R1 is the recorded finding and is expected to reproduce"""
+    """harness/c18_replays.py in a process of its own (it hooks shutil / tempfile / GIRParser): F0-F5 and M1 (several
+    source files) must pass without any suppression; R1 is the recorded finding and is expected to reproduce"""
     script = os.path.join(VERIF, 'harness', 'c18_replays.py')
-    want = tags or ['F0', 'F1', 'F2', 'F3', 'F4', 'F5', 'R1']
+    want = tags or ['F0', 'F1', 'F2', 'F3', 'F4', 'F5', 'M1', 'R1']
     try:
         p = subprocess.run([sys.executable, script] + want, stdout=subprocess.PIPE, stderr=subprocess.STDOUT,
                            timeout=300, env=dict(os.environ, GIVERIF_REPO=REPO, PYTHONDONTWRITEBYTECODE='1'))
@@ -1196,11 +1196,273 @@ def regression_replays(ctx, cnt, tags=None):
                 ctx.report_failure(KEY_SAME, 'real call site, real file system: ' + r['details'], rep)
         elif r['verdict'] == 'VIOLATED':
             ctx.report_failure('replay:%s:%s' % (tag, r['key']),
-                               'a repaired finding reproduces on the real call site and file systems (%s): %s'
-                               % (r['key'], r['details']), rep)
+                               '%s on the real call site and file systems (%s): %s'
+                               % ('a load returns the parse of another file' if tag.startswith('M')
+                                  else 'a repaired finding reproduces', r['key'], r['details']), rep)
         elif r['verdict'] == 'skipped':
             ctx.notes.append('replay %s not covered: %s' % (tag, r['details']))
     return res
+
+
+# ------------------------------------------------------------------------------------------
+# several source files: "a complete parse ... of a version of THAT file"
+# ------------------------------------------------------------------------------------------
+# The schedules above have one source path (one cache key).  Here several dependency GIRs exist at once, named the
+# way a scanner is handed them (--include-uninstalled passes the spelling through unchanged): relative spellings
+# that differ only in leading '.' and '/' characters, spellings that are prefixes / suffixes of one another, an
+# absolute spelling and the relative spelling that equals it without its leading '/', and several spellings of ONE
+# file.  The files may carry the same mtime (install -p, cp -p, tar, SOURCE_DATE_EPOCH).  Operations are sequential
+# (each by a scanner process of its own: a new CacheStore()), on the real, unpatched cachestore, in a scratch
+# working directory.  What the statement says about load(p): nothing, or the parse of a version of the file that p
+# names that was current during the load.  Which spellings share a cache entry is NOT judged (two spellings of one
+# file may or may not): only what load returns.
+MS_CWD = 'a/b/c'
+MS_NAME = SRC_NAME
+# $ABS = the working directory (absolute); $REL = the same string without its leading '/', i.e. a relative spelling
+MS_SPELLINGS = [
+    'Dep-1.0.gir', './Dep-1.0.gir', '../Dep-1.0.gir', './../Dep-1.0.gir', '../../Dep-1.0.gir', '.././Dep-1.0.gir',
+    '.Dep-1.0.gir', '..Dep-1.0.gir', './.Dep-1.0.gir', '../c/Dep-1.0.gir', 'c/Dep-1.0.gir', './c/Dep-1.0.gir',
+    'x/Dep-1.0.gir', '.x/Dep-1.0.gir', 'Dep-1.0.gir.orig', 'Dep-1.0', 'p-1.0.gir', 'ep-1.0.gir',
+    '$ABS/Dep-1.0.gir', '$REL/Dep-1.0.gir', '$ABS/./Dep-1.0.gir', '//$REL/Dep-1.0.gir', '$ABS/../Dep-1.0.gir',
+    '$ABS/x/Dep-1.0.gir', '$REL/x/Dep-1.0.gir',
+]
+# spellings that a normalisation of the entry name is likely to identify (wrongly or rightly)
+MS_GROUPS = [
+    ['Dep-1.0.gir', './Dep-1.0.gir', '../Dep-1.0.gir', '../../Dep-1.0.gir', './../Dep-1.0.gir', '.././Dep-1.0.gir'],
+    ['Dep-1.0.gir', '.Dep-1.0.gir', '..Dep-1.0.gir', './.Dep-1.0.gir', 'p-1.0.gir', 'ep-1.0.gir'],
+    ['Dep-1.0.gir', '../c/Dep-1.0.gir', 'c/Dep-1.0.gir', './c/Dep-1.0.gir', '$ABS/Dep-1.0.gir'],
+    ['$ABS/Dep-1.0.gir', '$REL/Dep-1.0.gir', '$ABS/./Dep-1.0.gir', '//$REL/Dep-1.0.gir', 'Dep-1.0.gir'],
+    ['x/Dep-1.0.gir', '.x/Dep-1.0.gir', '$ABS/x/Dep-1.0.gir', '$REL/x/Dep-1.0.gir', 'Dep-1.0.gir'],
+    ['Dep-1.0.gir', 'Dep-1.0.gir.orig', 'Dep-1.0', '$ABS/../Dep-1.0.gir', '../Dep-1.0.gir'],
+]
+
+
+class MultiSource(object):
+    """runs one multi-source case: ops = [['write', spelling, mtime, ns] | ['store', spelling] | ['load', spelling]]"""
+
+    def __init__(self, ctx, ex):
+        self.ctx = ctx
+        self.ex = ex
+        self.root = os.path.join(ctx.scratch, 'c18', 'ms')
+        self.cwd = os.path.join(self.root, MS_CWD)
+        self.n = 0
+
+    def spell(self, s):
+        return s.replace('$ABS', self.cwd).replace('$REL', self.cwd[1:])
+
+    def reset(self):
+        real_shutil.rmtree(self.root, ignore_errors=True)
+        os.makedirs(self.cwd)
+        self.ex.clean_dirs()
+        self.ex.set_argv0(7)
+        self.files = {}         # realpath -> {'fid': n, 'ver': current version, 'mtimes': {ver: mtime_ns}}
+        self.registry = set()
+
+    def file_of(self, path):
+        return self.files.get(os.path.realpath(path))
+
+    def run(self, case):
+        """returns the list of judged loads: (index of the op, spelling, verdict, details)"""
+        self.n += 1
+        cs_mod = self.ex.cs_mod
+        out = []
+        saved_cwd = os.getcwd()
+        self.reset()
+        os.chdir(self.cwd)
+        try:
+            for i, op in enumerate(case['ops']):
+                path = self.spell(op[1])
+                if op[0] == 'write':
+                    d = os.path.dirname(path)
+                    if d:
+                        os.makedirs(d, exist_ok=True)
+                    rp = os.path.realpath(path)
+                    f = self.files.setdefault(rp, {'fid': len(self.files), 'ver': 0, 'mtimes': {}, 'read': set()})
+                    ns = (BASE + op[2]) * 10 ** 9 + op[3]
+                    if not (f['ver'] and f['mtimes'][f['ver']] == ns and f['ver'] not in f['read']):
+                        # (writing once more, with the same mtime, a version nobody has read is not a new version)
+                        f['ver'] += 1
+                    f['mtimes'][f['ver']] = ns
+                    with open(path, 'w') as fh:
+                        fh.write('%d %d\n' % (f['fid'], f['ver']))
+                    os.utime(path, ns=(ns, ns))
+                    continue
+                f = self.file_of(path)
+                if f is None:
+                    out.append((i, op[1], 'outside:no-such-file', ''))
+                    continue
+                try:
+                    cs = cs_mod.CacheStore()            # one scanner process per operation
+                    if op[0] == 'store':
+                        # the call site: stat, read, store(spelling as given, parse, mtime)
+                        st = os.stat(path)
+                        with open(path) as fh:
+                            fid, ver = [int(x) for x in fh.read().split()]
+                        f['read'].add(ver)
+                        data = Parse((fid, ver), 7, i)
+                        self.registry.add(data.ident())
+                        if self.ex.store_takes_mtime:
+                            cs.store(path, data, st.st_mtime_ns if self.ex.store_takes_ns else st.st_mtime)
+                        else:
+                            cs.store(path, data)
+                        continue
+                    r = cs.load(path)
+                except Exception as e:      # noqa
+                    out.append((i, op[1], 'raised', '%s(%r) raised %r' % (op[0], op[1], e)))
+                    continue
+                if r is None:
+                    out.append((i, op[1], 'none', ''))
+                elif not isinstance(r, Parse) or r.ident() not in self.registry:
+                    out.append((i, op[1], 'foreign', 'load(%r) returned %r which no store wrote' % (op[1], r)))
+                elif r.data[0] != f['fid']:
+                    other = [p for p, g in self.files.items() if g['fid'] == r.data[0]]
+                    out.append((i, op[1], 'other-file',
+                                'load(%r) returned the parse stored by operation %d, which is version %d of ANOTHER file '
+                                '(%s), not a version of the file %r names (%s); both carry mtime_ns %d'
+                                % (op[1], r.op, r.data[1], os.path.relpath(other[0], self.cwd) if other else '?', op[1],
+                                   os.path.relpath(os.path.realpath(path), self.cwd), f['mtimes'][f['ver']])))
+                elif r.data[1] != f['ver']:
+                    ms = list(f['mtimes'].values())
+                    out.append((i, op[1], 'stale:one-mtime' if len(set(ms)) < len(ms) else 'stale',
+                                'load(%r) returned parse(v%d) of its file whose current version is v%d (mtimes of its '
+                                'versions: %s)' % (op[1], r.data[1], f['ver'], ms)))
+                else:
+                    out.append((i, op[1], 'fresh-ok', ''))
+        finally:
+            os.chdir(saved_cwd)
+        return out
+
+
+def ms_directed():
+    """for every spelling p: all files exist with ONE mtime; store(p); then load of every spelling"""
+    cases = []
+    setup_ops = [['write', s, 5, 0] for s in MS_SPELLINGS]
+    for p in MS_SPELLINGS:
+        cases.append({'ops': setup_ops + [['store', p]] + [['load', q] for q in MS_SPELLINGS],
+                      'origin': 'directed'})
+    # minimal forms: two spellings only (what a shrunk replay looks like)
+    for g in MS_GROUPS:
+        for p, q in itertools.permutations(g[:4], 2):
+            cases.append({'ops': [['write', p, 5, 0], ['write', q, 5, 0], ['store', p], ['load', q], ['load', p]],
+                          'origin': 'directed:pair'})
+    return cases
+
+
+def ms_random(rng):
+    g = list(rng.choice(MS_GROUPS))
+    if rng.random() < 0.4:
+        g += rng.sample(MS_SPELLINGS, 2)
+    rng.shuffle(g)
+    names = g[:rng.choice([2, 3, 3, 4, 5])]
+    pool = rng.choice([[5], [5, 5, 6], [3, 5, 8], [5]])
+    nsp = rng.choice([[0], [0], [0, 1, 999999999], [123456789]])
+    ops = [['write', s, rng.choice(pool), rng.choice(nsp)] for s in names]
+    nxt = 20
+    for _ in range(rng.choice([3, 5, 8, 12])):
+        r = rng.random()
+        s = rng.choice(names)
+        if r < 0.4:
+            ops.append(['store', s])
+        elif r < 0.8:
+            ops.append(['load', s])
+        elif r < 0.9:
+            # a new version of one file; its mtime is new for THAT file (strictly increasing), so that the recorded
+            # class (two versions of one file with one mtime) is not what is being looked at here
+            nxt += 1
+            ops.append(['write', s, nxt, rng.choice(nsp)])
+        else:
+            # ... but it may be the mtime another file already carries: all files are brought to one new mtime
+            nxt += 1
+            ops.extend(['write', t, nxt, 0] for t in names)
+    ops.extend(['load', s] for s in names)
+    return {'ops': ops, 'origin': 'random'}
+
+
+def ms_shrink(ms, case, verdict):
+    """drop operations while the same verdict is still produced"""
+    ops = list(case['ops'])
+    changed = True
+    while changed and len(ops) > 2:
+        changed = False
+        for i in range(len(ops) - 1, -1, -1):
+            cand = ops[:i] + ops[i + 1:]
+            if any(v == verdict for _i, _s, v, _d in ms.run({'ops': cand})):
+                ops = cand
+                changed = True
+    return {'ops': ops}
+
+
+MS_BAD = ('raised', 'foreign', 'other-file', 'stale', 'stale:one-mtime')
+
+
+def ms_judge(ctx, cnt, ms, case, shrink=True, report=True):
+    res = ms.run(case)
+    bad = [x for x in res if x[2] in MS_BAD]
+    for _i, _s, v, _d in res:
+        cnt.hit('multi-source:load:' + v)
+    if not bad:
+        return res
+    if not report:
+        cnt.hit('multi-source:further-failing-case-not-reported-one-by-one')
+        return res
+    first = bad[0]
+    small = ms_shrink(ms, case, first[2]) if shrink else {'ops': case['ops']}
+    again = [x for x in ms.run(small) if x[2] == first[2]]
+    details = again[0][3] if again else first[3]
+    replay = {'kind': 'multi-source', 'ops': small['ops']}
+    if first[2] == 'stale:one-mtime':
+        ctx.report_failure(KEY_SAME, 'several source files, real CacheStore: ' + details, replay)
+    else:
+        key = 'multi-source:' + json.dumps(small['ops'], separators=(',', ':'))
+        ctx.report_failure(key, 'several source files, real CacheStore, cwd=<scratch>/%s, ops=%s: %s'
+                           % (MS_CWD, json.dumps(small['ops']), details), replay)
+    return res
+
+
+def multi_source(ctx, ex, cnt):
+    """every run: the directed family + random operation sequences; returns the coverage record"""
+    ms = MultiSource(ctx, ex)
+    sys.argv[0] = ex.saved_argv0
+    cases = ms_directed() + [ms_random(ctx.rng) for _ in range(ctx.n(300, 6000))]
+    reported = 0
+    t0 = time.time()
+    hits = 0
+    shared = set()
+    for c in cases:
+        cnt.hit('multi-source:' + c['origin'])
+        # (the first three failing cases are shrunk and reported with their replay, the others are counted)
+        res = ms_judge(ctx, cnt, ms, c, report=reported < 3)
+        if any(x[2] in MS_BAD for x in res):
+            reported += 1
+        hits += sum(1 for x in res if x[2] == 'fresh-ok')
+        cnt.case(['multi-source', c['ops']], nontrivial=any(x[2] == 'fresh-ok' for x in res))
+    # the entry-name function, through the public surface: which file appears in the cache directory for a store
+    # of spelling p (the model's assumption: a name that distinct paths do not share, sha1 of the path as given)
+    import hashlib
+    names = {}
+    mismatch = []
+    for p in MS_SPELLINGS:
+        ms.run({'ops': [['write', p, 5, 0], ['store', p]]})
+        ent = sorted(f for f in os.listdir(ex.cachedir) if not f.startswith('.'))
+        want = hashlib.sha1(ms.spell(p).encode('utf-8')).hexdigest()
+        names[p] = ent
+        if ent != [want]:
+            mismatch.append((p, ent))
+    if mismatch:
+        ctx.broken.append('correspondence c18.entry-name: a store of %r leaves %s in the cache directory, the model '
+                          'assumes exactly one entry named sha1(path as given) (an injective function of the path); '
+                          '%d of %d spellings differ' % (mismatch[0][0], mismatch[0][1], len(mismatch),
+                                                         len(MS_SPELLINGS)))
+    for p, q in itertools.combinations(MS_SPELLINGS, 2):
+        if names[p] and names[p] == names[q]:
+            shared.add((p, q))
+    ex.clean_dirs()
+    real_shutil.rmtree(ms.root, ignore_errors=True)
+    if hits == 0:
+        ctx.notes.append('multi-source: no load was served from the cache (the clause is vacuously true)')
+    return {'cases': len(cases), 'runs_including_shrinking': ms.n, 'loads_served_from_cache': hits,
+            'spellings': len(MS_SPELLINGS), 'spellings_sharing_an_entry': sorted(shared)[:10],
+            'seconds': round(time.time() - t0, 1)}
 
 
 # ------------------------------------------------------------------------------------------
@@ -1384,6 +1646,9 @@ def run(ctx):
                 cnt.hit('search:neighbour')
     finally:
         ex.uninstall()
+    # ---- several source files under spellings that resemble one another (real, unpatched CacheStore)
+    multi = multi_source(ctx, ex, cnt)
+    ctx.log('multi-source: %s' % multi)
     # ---- the repaired findings and the recorded one on real file systems (subprocess, nothing patched here)
     replays = regression_replays(ctx, cnt)
     ctx.log('replays on real file systems: %s' % dict((k, v['verdict']) for k, v in sorted(replays.items())))
@@ -1405,6 +1670,11 @@ def run(ctx):
                 'is executed on the real CacheStore under the controlled scheduler and by the Lean step function, '
                 'compared on system-call trace, per-operation outcome, load results (value, mtimes seen, version '
                 'interval), final entry / stamp / temp files; the statement oracle judges the real results. '
+                'Multi-source part (every run): several dependency GIRs existing at once under spellings that differ '
+                'only in leading . and / characters, are prefixes / suffixes of one another, an absolute spelling and '
+                'the relative one equal to it without its leading /, several spellings of one file, files carrying '
+                'one mtime; sequential write / store / load on the real unpatched CacheStore in a scratch working '
+                'directory; load(p) must return nothing or the parse of the current version of the file p names. '
                 'non-trivial = at least three system calls were executed; distinct by content hash.',
         'samples': state['samples'],
         'distribution': cnt.counts,
@@ -1414,6 +1684,7 @@ def run(ctx):
         'disagreements': state['disagree'],
         'gir_cache_equivalence': gir,
         'replays_on_real_file_systems': replays,
+        'multi_source': multi,
         'notes': ctx.notes,
         'pending_findings': [p['key'] for p in PENDING_FINDINGS],
     })
@@ -1450,6 +1721,20 @@ def replay(ctx, rep):
     if r.get('kind') == 'replay':
         cnt = Counter()
         res = regression_replays(ctx, cnt, [r['tag']])
+        print(json.dumps(res, indent=1))
+        for h in ctx.known_hits:
+            print('KNOWN-FINDING: property=C18 %s [%s]' % (h['what'], h['key']))
+        for v in ctx.violations:
+            print('VIOLATION property=C18 %s' % v['what'])
+        return 1 if ctx.violations else 0
+    if r.get('kind') == 'multi-source':
+        cachestore = setup(ctx)
+        ex = Executor(ctx, cachestore)
+        cnt = Counter()
+        try:
+            res = ms_judge(ctx, cnt, MultiSource(ctx, ex), {'ops': r['ops']}, shrink=False)
+        finally:
+            sys.argv[0] = ex.saved_argv0
         print(json.dumps(res, indent=1))
         for h in ctx.known_hits:
             print('KNOWN-FINDING: property=C18 %s [%s]' % (h['what'], h['key']))
